@@ -52,11 +52,13 @@ def context(case):
         params = junior.tyrving_tables()[g][e]
         timed = params[0] == 'race'
         conv = {'float': centi_float, 'text2': fmt2, 'text1': fmt1}[form]
-        return (lambda c: call(athlib.tyrving_score, g, age, e, conv(c))), timed, 0, None
+        sp = case.get('spelling', e)        # the event as the caller spells it (normalises to the key e)
+        return (lambda c: call(athlib.tyrving_score, g, age, sp, conv(c))), timed, 0, None
     if s == 'qkids':
         ct, e = case['comp'], case['event']
         timed = bool(athlib.PAT_RUN.match(e))
-        return (lambda c: call(athlib.qkids_score, ct, e, centi_float(c))), timed, 10, 100
+        sp = case.get('spelling', e)
+        return (lambda c: call(athlib.qkids_score, ct, sp, centi_float(c))), timed, 10, 100
     if s == 'sportshall':
         e = case['event']
         return (lambda c: call(athlib.sportshall_score, e, fmt2(c))), e not in junior.SH_HIGH, 0, None
@@ -166,6 +168,23 @@ def windows(lo, hi, points, nwin, width, rng, full):
     return ws
 
 
+def caller_spellings(key, rng, n=3):
+    """Spellings a caller may use for a table key: padded, lower case, suffix / zero variants - kept when they
+    normalise to the key (these systems normalise their event argument)."""
+    from vlib import variants as _v
+    cands = [' ' + key, key + ' ', '\t' + key + '\n', key.lower(), ' ' + key.lower() + ' ']
+    for _ in range(6):
+        kind, v = _v.variant(key, rng.randrange)
+        cands.append(v)
+    out = []
+    for sp in cands:
+        r = call(athlib.normalize_event_code, sp)
+        if sp != key and r == ('ret', key) and sp not in out:
+            out.append(sp)
+    rng.shuffle(out)
+    return out[:n]
+
+
 def shard(ctx, payload):
     sysname = payload[0]
     thorough = ctx.tier == 'thorough'
@@ -247,6 +266,10 @@ def shard(ctx, payload):
                 lo, hi, pts = max(0, zero - 60), b0 + int(600 / float(mults[0])), [b0, b1, zero]
             base = {'system': 'tyrving', 'gender': g, 'event': ev, 'age': age}
             sweep(dict(base, form='float'), lo, hi, points=pts, nwin=3, width=1200)
+            if age == junior.tyrving_ages(params)[0]:
+                for sp in caller_spellings(ev, rng, 2):
+                    sweep(dict(base, form='float', spelling=sp), lo, hi, points=pts[:1], nwin=1, width=300, full=False)
+                    ctx.label('caller-spelling-sweeps')
             if kind == 'race':
                 a10, b10 = (lo // 10 + 1) * 10, (hi // 10) * 10
                 ctx.violations(examine(dict(base, form='text1', step=10, lo=a10, hi=b10), ctx))
@@ -260,6 +283,9 @@ def shard(ctx, payload):
         a, b = sorted((r1, r2))
         lo, hi = max(0, int((a - 12 * r0) * 100) - 50), int((b + 12 * r0) * 100) + 50
         ctx.violations(examine({'system': 'qkids', 'comp': ct, 'event': ev, 'lo': lo, 'hi': hi}, ctx))
+        for sp in caller_spellings(ev, rng, 3):
+            ctx.violations(examine({'system': 'qkids', 'comp': ct, 'event': ev, 'spelling': sp, 'lo': lo, 'hi': hi}, ctx))
+            ctx.label('caller-spelling-sweeps')
     elif sysname == 'sportshall':
         _, ev = payload
         info = junior.sportshall_tables()[ev]
